@@ -22,6 +22,7 @@ def register(w):
         "pygopherd/handlers/base.py::VFS_Real.__init__",
         "pygopherd/handlers/virtual.py::Virtual.getselector",
         "pygopherd/handlers/UMN.py::LinkEntry.__init__",
+        "pygopherd/handlers/HandlerMultiplexer.py::init_default_handlers",
         "pygopherd/handlers/UMN.py::LinkEntry.getneedsmerge",
         "pygopherd/handlers/UMN.py::LinkEntry.getneedsabspath",
         "pygopherd/handlers/UMN.py::LinkEntry.setneedsmerge",
